@@ -119,6 +119,10 @@ def run(chk: Check, proj: Project) -> None:
     s1a_reentrant(chk, proj, w)
     s1a_parsed_values(chk, proj, w)
     s1i_shared_instances(chk, proj, w)
+    from . import C16
+
+    chk.borrow("S1-A5", "the class-media memo is race-tolerant because it is PURE: the entry for a class is written once all selected bases are memoised, its value depends only on the class and its bases' entries, and the getter returns the memo entry of the requested class (never a local left over from a loop that another thread's progress may have shortened) (shared with C16-S2)",
+               lambda sub: C16.s2(sub, proj, proj.mod("component_media")))
     chk.call_sites = w.cg.n_calls
 
 
